@@ -8,6 +8,7 @@ import (
 	"encoding/json"
 	"fmt"
 	"math/big"
+	"math/rand"
 	"os"
 	"os/exec"
 	"path/filepath"
@@ -120,6 +121,41 @@ func bombCase(id string, depth, breadth int, leaf string, blobSize int) cases.Sc
 		g.Trees = append(g.Trees, es)
 	}
 	g.Commits = []model.Commit{{Tree: depth, Parents: []int{}}}
+	g.Normalize()
+	return cases.ScanCase{ID: id, G: g, Style: "full", Names: names,
+		Roots: []cases.RootSpec{{O: model.Oid{K: "c", I: 1}, Walk: true, IsRef: true, Name: "refs/heads/bomb", Kind: "plain"}}}
+}
+
+// bombLevelsCase: a bomb whose level i holds breadths[i] entries pointing at the level below.
+func bombLevelsCase(id string, breadths []int, leaf string, blobSize int) cases.ScanCase {
+	var g model.Graph
+	g.Blobs = []int{blobSize}
+	names := map[int][]byte{}
+	mx := 0
+	for _, b := range breadths {
+		if b > mx {
+			mx = b
+		}
+	}
+	for j := 1; j <= mx; j++ {
+		names[j] = []byte(fmt.Sprintf("f%02d", j))
+	}
+	for i, b := range breadths {
+		var es []model.Entry
+		for j := 1; j <= b; j++ {
+			if i == 0 {
+				e := model.Entry{K: leaf, To: 1, N: j, NL: 3}
+				if leaf == "sub" {
+					e.To = 0
+				}
+				es = append(es, e)
+			} else {
+				es = append(es, model.Entry{K: "tree", To: i, N: j, NL: 3})
+			}
+		}
+		g.Trees = append(g.Trees, es)
+	}
+	g.Commits = []model.Commit{{Tree: len(breadths), Parents: []int{}}}
 	g.Normalize()
 	return cases.ScanCase{ID: id, G: g, Style: "full", Names: names,
 		Roots: []cases.RootSpec{{O: model.Oid{K: "c", I: 1}, Walk: true, IsRef: true, Name: "refs/heads/bomb", Kind: "plain"}}}
@@ -488,6 +524,33 @@ func checkC05(c *Ctx) {
 	for i, x := range plan {
 		bombs = append(bombs, bombCase(fmt.Sprintf("bomb%d", i+1), x.d, x.b, x.leaf, x.sz))
 	}
+	// bombs whose breadth changes from level to level (a different multiplier at the level where a total passes
+	// 2^32 or 2^64; totals that are no powers of one number)
+	nmixed := 10
+	if !quick(c) {
+		nmixed = 60
+	}
+	brng := rand.New(rand.NewSource(c.Seed + 77))
+	for i := 0; i < nmixed; i++ {
+		sz := []int{1, 3, 512, 1000, 65536, 9}[brng.Intn(6)]
+		var levels []int
+		total := new(big.Int).SetInt64(int64(sz))
+		limit := new(big.Int).Lsh(big.NewInt(1), 66)
+		for total.Cmp(limit) < 0 && len(levels) < 70 {
+			b := []int{2, 3, 5, 6, 7, 9, 10, 12, 13, 16}[brng.Intn(10)]
+			levels = append(levels, b)
+			total.Mul(total, big.NewInt(int64(b)))
+		}
+		if i == 0 { // 512 bytes under 12 layers of 16, two of 3 and one of 16: 9 * 2^61 bytes
+			sz, levels = 512, []int{16, 16, 16, 16, 16, 16, 16, 16, 16, 16, 16, 16, 3, 3, 16}
+		}
+		leaf := []string{"file", "file", "exec", "link", "sub"}[brng.Intn(5)]
+		if i < 4 {
+			leaf = "file"
+		}
+		bombs = append(bombs, bombLevelsCase(fmt.Sprintf("mixedbomb%d", i+1), levels, leaf, sz))
+		plan = append(plan, bp{len(levels), 0, leaf, sz})
+	}
 	t1 := time.Now()
 	runs := env.parallelCLI(bombs, cliOpt{Formats: true, Progress: true}, 8)
 	// a saturated quantity is reported whatever the threshold: the same bombs with a huge threshold
@@ -500,7 +563,7 @@ func checkC05(c *Ctx) {
 		}
 		byID[r.Case.ID] = r
 		bj = append(bj, bigJudgeCase(r))
-		c.Distinct(fmt.Sprintf("bomb:%v", plan[i]))
+		c.Distinct(fmt.Sprintf("bomb:%s:%v", bombs[i].ID, plan[i]))
 		// linear time: one Tree event per distinct tree, and a very generous wall-clock guard
 		trees, finals := 0, 0
 		for _, e := range r.Events {
